@@ -170,6 +170,10 @@ def _run_one(u):
     cmd += [u.source, "--"] + u.flags()
     t = time.time()
     r = subprocess.run(cmd, stdout=subprocess.PIPE, stderr=subprocess.PIPE, text=True, preexec_fn=_limit_memory)
+    if r.returncode < 0 or (r.returncode != 0 and not any("error" in l for l in r.stderr.splitlines())):
+        # killed by a signal / out of memory while other jobs were using the machine (no diagnostic of its own): one more try, alone in time
+        time.sleep(5)
+        r = subprocess.run(cmd, stdout=subprocess.PIPE, stderr=subprocess.PIPE, text=True, preexec_fn=_limit_memory)
     dt = time.time() - t
     if r.returncode != 0 or not os.path.exists(tmp):
         try:
@@ -208,7 +212,7 @@ def extract(units, jobs=None):
     """Extract (or reuse) facts for all units; returns list of (unit, path, seconds, cached)."""
     if not os.path.exists(HFX):
         raise ExtractionError("hfx binary missing: run MANIFEST.setup_cmd (make -C /verif)")
-    jobs = jobs or min(16, os.cpu_count() or 4)
+    jobs = jobs or int(os.environ.get("HFSM2_JOBS", "0") or 0) or min(16, os.cpu_count() or 4)     # HFSM2_JOBS: cap for runs that share the machine
     res = []
     with ThreadPoolExecutor(max_workers=jobs) as ex:
         futs = [(u, ex.submit(_run_one, u)) for u in units]
